@@ -129,6 +129,16 @@ theorem no_config_no_buffer_filters (defArgs : List Str) (tgt : Str) (cfg : Cfg)
   rw [buffer_filters_after_def_filters, h]
   simp [dropN, nest]
 
+/-- A `buffered="True"` block (named or anonymous) is finished by the same `write_def_finish` as a buffered def, and
+`visitBlockTag` writes what the block function returns at the block's position (`__M_writer(<call> or '')`): the
+block renders in place as `B(F(body))` – its own `filter=` first, then `buffer_filters`, without D and P – and
+as `F(body)` without configuration. -/
+theorem buffered_block_filters_then_buffer_filters (blockArgs bufferFilters : List Str) (tgt : Str) (cfg : Cfg) :
+    defFinishExpr blockArgs bufferFilters true false tgt cfg =
+      nest ((dropN bufferFilters).map resolve) (nest ((dropN blockArgs).map resolve) tgt) ∧
+    defFinishExpr blockArgs templateBufferFilters true false tgt cfg = nest ((dropN blockArgs).map resolve) tgt :=
+  ⟨buffer_filters_after_def_filters blockArgs bufferFilters tgt cfg, no_config_no_buffer_filters blockArgs tgt cfg⟩
+
 /-- a `cached="True"` def: the function whose result is cached ends with the def's own filters only, whether
 buffered or not; `buffer_filters` are applied by the caching wrapper, outside the cache, and only when the def
 is buffered – so `B(cached F(body))`, again without D and P. -/
